@@ -1622,7 +1622,7 @@ class RefCatalog(object):
 
         rotm = [planar_rot_3d(np.deg2rad(alpha), 2 - axis)
                 for axis, alpha in enumerate([ra_ref, dec_ref])]
-        euler_rot = np.linalg.multi_dot(rotm)
+        euler_rot = np.linalg.multi_dot(rotm[::-1])
         inv_euler_rot = inv(euler_rot)
         xr, yr, zr = np.dot(euler_rot, (x, y, z))
         x = yr / xr
